@@ -710,6 +710,8 @@ pub fn main_entry() -> i32 {
             0
         }
         Some("c31-case") => crate::props::c31::child_main(),
+        Some("c22-digests") => crate::props::c22::digests_main(&args[2..]),
+        Some("c22-one") => crate::props::c22::one_main(),
         Some("selftest") => crate::props::selftest(&args[2..]),
         _ => {
             eprintln!("usage: verif-sim run|worker|replay|selftest …");
